@@ -243,6 +243,9 @@ func runDOT(c *harness.Ctx) harness.Result {
 	}
 	gran := []string{"functions", "lines", "files", "filefunctions", "addresses"}[r.Intn(5)]
 	opts := map[string]bool{gran: true, "call_tree": r.Intn(2) == 0, "trim": r.Intn(2) == 0}
+	if r.Intn(4) == 0 {
+		opts["mean"] = true // entries whose mean rounds to nothing are not drawn; nothing may point at them
+	}
 	strs := map[string]string{}
 	if r.Intn(4) == 0 {
 		strs["tagshow"] = "nosuchtag" // tags off
